@@ -43,8 +43,20 @@ def run_units(units, tier):
     # unplaceable ghost text dropped: same contract, same real text, fewer hints
     for u in units:
         m = res[(u, 'main')]
+        if m.status == 'undecided' and m.gen is not None and m.gen.get('compile_error_fns'):
+            # a spliced hint no longer type-checks against the rewritten function: drop that function's hints
+            r2 = verus.run_unit(u, None, None, 30, 4, True, tuple(m.gen['compile_error_fns']))
+            if r2.gen is not None:
+                r2.lenient = True
+                r2.strict_reason = m.reason[:300]
+                res[(u, 'main')] = r2
+            continue
         if m.status == 'undecided' and m.reason.startswith('lost anchor'):
             r2 = verus.run_unit(u, None, None, 30, 4, True)
+            if r2.status == 'undecided' and r2.gen is not None and 'compile error' in r2.reason:
+                r3 = verus.run_unit(u, None, None, 30, 4, 'nohints')
+                if r3.gen is not None:
+                    r2 = r3
             if r2.gen is not None:
                 r2.lenient = True
                 r2.strict_reason = m.reason
